@@ -193,8 +193,58 @@ func (g *gen) member(fail, para bool) simrt.Op {
 	return simrt.Op{K: "none", I: []int64{int64(g.r.Intn(NAcc)), g.next()}}
 }
 
+// sharedGroup: members of one executor name working on ONE state key: the first
+// writes and reports it; later members overwrite it and report it, only read it,
+// report it without writing, or overwrite it WITHOUT reporting it (which must fail
+// the whole group although an earlier member of the group did report that key).
+func (g *gen) sharedGroup(nameIdx int) simrt.Op {
+	r := g.r
+	name := execNames[nameIdx]
+	k := stateKey(name, r.Intn(nKeys))
+	n := r.Range(2, 5)
+	grp := simrt.Op{K: "group"}
+	bad := -1
+	if r.Chance(2, 3) {
+		bad = r.Range(1, n-1)
+	}
+	for i := 0; i < n; i++ {
+		nn := g.next()
+		m := simrt.Op{K: "vm", I: []int64{int64(r.Intn(NAcc)), nn, int64(nameIdx)}}
+		if r.Chance(1, 3) {
+			m.Sub = append(m.Sub, simrt.Op{K: "x:sget", S: []string{k}})
+		}
+		switch {
+		case i == 0:
+			m.Sub = append(m.Sub, simrt.Op{K: "x:sset", S: []string{k, g.val(nn, 0)}})
+		case i == bad:
+			m.Sub = append(m.Sub, simrt.Op{K: "x:sset", S: []string{k, g.val(nn, 1)}})
+			if r.Chance(1, 2) { // some other key is reported instead
+				m.Sub = append(m.Sub, simrt.Op{K: "x:sset", S: []string{stateKey(name, nKeys), g.val(nn, 2)}})
+			}
+			m.Sub = append(m.Sub, simrt.Op{K: "x:omit", S: []string{k}})
+		default:
+			switch r.Intn(4) {
+			case 0:
+				m.Sub = append(m.Sub, simrt.Op{K: "x:sset", S: []string{k, g.val(nn, 3)}})
+			case 1:
+				m.Sub = append(m.Sub, simrt.Op{K: "x:emit", S: []string{k, g.val(nn, 4)}})
+			case 2:
+				m.Sub = append(m.Sub, simrt.Op{K: "x:sset", S: []string{stateKey(name, r.Intn(nKeys)), g.val(nn, 5)}})
+			}
+		}
+		if r.Chance(1, 3) {
+			m.Sub = append(m.Sub, simrt.Op{K: "x:sget", S: []string{k}})
+		}
+		grp.Sub = append(grp.Sub, m)
+	}
+	return grp
+}
+
 func (g *gen) group() simrt.Op {
 	r := g.r
+	if r.Chance(1, 4) {
+		return g.sharedGroup([]int{0, 0, 1, 3, 4}[r.Intn(5)])
+	}
 	n := 2 + r.Weighted(5, 4, 3, 2, 1, 1, 1)
 	grp := simrt.Op{K: "group"}
 	failAt := -1
